@@ -32,7 +32,7 @@ ASSUMPTIONS = [
     "the Go reference server cannot be built here (no Go toolchain): it is exercised through a line-by-line Python port; the side under test is the Python bridge",
     "the origin of the `tick` field is not fixed by the statement (the bridge counts from 1): only monotonicity is required",
 ]
-FLOORS = {"completion_reported": 0.2, "idle_poll_call": 0.2, "policy_tape": 0.2, "had_suspension": 0.005}
+FLOORS = {"completion_reported": 0.2, "idle_poll_call": 0.2, "policy_tape": 0.2, "had_suspension": 1}
 FORBIDDEN_KEYS = {"baseline_cpu_seconds", "storage_read_gb", "memory_gb", "cpu_scaling", "segments", "values", "scaling_func"}
 REPLAY_KEY = "verif-replay"
 _replay = {"decisions": {}, "registered": False}
